@@ -803,11 +803,11 @@ type verifRenameSkel struct {
 }
 
 var verifRenameSkels = []verifRenameSkel{
-	{"local-variable", "zzq", []string{"v", "a1", "_t", "long_name_x", "q"},
+	{"local-variable", "zzq", []string{"v", "a1", "_t", "long_name_x", "q", "camelCase", "x9y", "__w"},
 		"zzq = Sym.a\ndbtp zzq\ny = zzq\ndbtp y\nzzq = [zzq, 1]\ndbtp zzq\nundefined_fn(zzq)\n"},
-	{"method", "zzq", []string{"foo", "f", "bar_baz", "q1", "go"},
+	{"method", "zzq", []string{"foo", "f", "bar_baz", "q1", "go", "fooBar", "_priv", "do_it2"},
 		"def zzq(v)\nv\nend\nr = zzq(Sym.a)\ndbtp r\nzzq(1, 2)\nzzq\n"},
-	{"class", "Zzq", []string{"Hx", "H", "Zed", "Ab1", "Qq"},
+	{"class", "Zzq", []string{"Hx", "H", "Zed", "Ab1", "Qq", "HTTPClient", "I2CBus", "FooBar", "Xy_z"},
 		"class Zzq\ndef foo\n1\nend\ndef self.make\nZzq.new\nend\nend\no = Zzq.new\ndbtp o.foo\ndbtp Zzq.make\ndbtp Zzq.new.foo\nZzq.bar\no.baz\n"},
 	{"instance-variable", "zzq", []string{"v", "a1", "_t", "count", "q"},
 		"class Kxy\ndef initialize\n@zzq = Sym.a\nend\ndef get\n@zzq\nend\nend\ndbtp Kxy.new.get\n"},
@@ -841,6 +841,8 @@ func VerifRename(n int) {
 	shape := "ordinary-name"
 	if len(name) == 1 || (len(name) == 2 && strings.HasSuffix(name, "?")) {
 		shape = "one-character-name"
+	} else if len(name) > 2 && name[0] >= 'A' && name[0] <= 'Z' && ((name[1] >= 'A' && name[1] <= 'Z') || (name[1] >= '0' && name[1] <= '9')) {
+		shape = "acronym-style-name"
 	}
 	if sk.category == "heredoc-terminator" {
 		shape = "body-token-is-substring-of-terminator"
